@@ -49,12 +49,22 @@ pub fn translate(kind: u8, pc: usize, pr: usize, sc: usize, sr: usize, ec: usize
     run(kind, pc, pr, gm, cells, &Translate(mc, mr), false);
 }
 
-/// mid beyond the size (full usize range) must panic.
-pub fn translate_rejected(kind: u8, pc: usize, pr: usize) {
+/// mid beyond the size must panic. One coordinate is the offending one:
+/// which = 0: column shift symbolic over everything > cols, row shift 0;
+/// which = 1 / 2: row shift rows+1 / usize::MAX (concrete, so that CBMC prunes the cycle-leader loops
+/// behind the failed assertion), column shift symbolic over the full range.
+pub fn translate_rejected(kind: u8, pc: usize, pr: usize, which: u8) {
     let cells = nd::bytes::<16>();
-    let gm = geometry(kind, pc, pr, Pick::Sym);
-    let (mc, mr) = (nd::usize_(), nd::usize_());
-    nd::assume(!(mc <= gm.size.0 && mr <= gm.size.1));
+    let gm = geometry(kind, pc, pr, Pick::Cols(if pc > 1 { 1 } else { 0 }, pc));
+    let (mc, mr) = if which == 0 {
+        let mc = nd::usize_();
+        nd::assume(mc > gm.size.0);
+        (mc, 0)
+    } else if which == 1 {
+        (nd::usize_(), gm.size.1 + 1)
+    } else {
+        (nd::usize_(), usize::MAX)
+    };
     run(kind, pc, pr, gm, cells, &Translate(mc, mr), true);
 }
 
